@@ -31,6 +31,7 @@ SCRIPTS = [
     ["name p8", "version 1.0", "type tdm (temporal_modes=%(i)s)", "", "int array p0 =", "    %(i)s, %(i)s", "Gate(p0, %(f)s) | %(m)s", "Vac | %(m)s"],
     ["name p9", "version 1.0", "", "for int i in [%(m)s, %(m)s]", "    Vac | i", "    Dgate(%(f)s) | i"],
     ["name p11", "version 1.0", "", "float array U =", "    %(f)s, %(f)s", "    %(f)s, %(f)s", "int array K =", "    %(i)s, %(i)s", "Interferometer(U) | [%(m)s, %(m)s]", "Dgate({a}, k=K) | %(m)s", "Sgate({a}*2) | %(m)s"],
+    ["name p12", "version 1.0", "target X8 (phases=[%(i)s, %(i)s, %(f)s], names=[\"a\", \"b\"])", "type tdm (shifts=[%(i)s, %(i)s], copies=%(i)s)", "", "Dgate({a}, k=[%(f)s, %(f)s]) | %(m)s", "Vac | %(m)s"],
     ["name p10", "version 1.0", "", "complex c = %(c)s", "Zgate(c, %(c)s) | %(m)s", "Vac | [%(m)s, %(m)s]"],
 ]
 OPS = ["dumps", "to_DiGraph", "attributes", "call", "match_as_template", "match_as_program", "dumps_twice", "graph_then_dumps"]
